@@ -6,7 +6,8 @@ from vf.ref import text as RT
 
 ID = 'C17'
 LEVEL = 'exploration'
-RULE = ('sampled (Hypothesis-decoded): texts of length 0..12 (thorough 30) '
+RULE = ('& chains of 2..300 operands (literals and cells).  '
+        'sampled (Hypothesis-decoded): texts of length 0..12 (thorough 30) '
         'over a collision-rich alphabet (a b A blank " \' , ( e-acute '
         'U-umlaut digits), positions and counts from -2 to len+3, replacement '
         'and search texts from the same alphabet, integers and booleans as '
